@@ -6,7 +6,7 @@ from core import nats, opt, b01, exc_kind, safe_check
 import taxutil as T
 
 PROPS = ('GambitV.Props.C10', 'GambitV.C10')
-TIE = [('GambitV.Tie.PyFindMatches', 'GambitV.Tie.Py'), ('GambitV.Tie.PyConsensus', 'GambitV.Tie.Py'), ('GambitV.Tie.PyClassify', 'GambitV.Tie.Py'), ('GambitV.Tie.PyPropsC10', 'GambitV.Tie.Py'), ('GambitV.Tie.PyQueryFlow', 'GambitV.Tie.Py')]
+TIE = [('GambitV.Tie.PyFindMatches', 'GambitV.Tie.Py'), ('GambitV.Tie.PyConsensus', 'GambitV.Tie.Py'), ('GambitV.Tie.PyClassify', 'GambitV.Tie.Py'), ('GambitV.Tie.PyPropsC10', 'GambitV.Tie.Py'), ('GambitV.Tie.PyQueryFlow', 'GambitV.Tie.Py'), ('GambitV.Tie.PyAncestors', 'GambitV.Tie.Py')]
 RULE = ('consensus_taxon: (forest, ordered list of matched taxa): all forests with <= 4/5 nodes x all non-empty subsets x all orders '
         '[exhaustive]; random forests up to 12 nodes with <= 7 matched taxa x up to 50 random orders, incl. three-level conflicts '
         '{species, its subspecies, sibling species}. classify(strict=True): random forests x genome assignments x tie-heavy float32 rows, '
@@ -47,7 +47,8 @@ def check(ctx, case):
 		except Exception as e:
 			return [], [f'consensus_taxon raised {exc_kind(e)}: {e}']
 		case['_nt'] = len(set(order)) >= 2
-		lin = [f'pyrt.lineage {ftok} {order[0]} {nats([ti(a) for a in taxa[order[0]].ancestors(incself=True)])}'] if order else []
+		lin = [f'pyrt.lineage {ftok} {order[0]} {nats([ti(a) for a in taxa[order[0]].ancestors(incself=True)])}',
+		       f'pyg.ancestors {ftok} {order[0]} 0 {nats([ti(a) for a in taxa[order[0]].ancestors()])}'] if order else []
 		return [f'c10.consensus {ftok} {nats(order)} {opt(ti(cons))} {nats(sorted(ti(o) for o in others))}'] + lin, []
 	# classify strict
 	gtax = case['gtax']
